@@ -273,3 +273,52 @@ package server
 //@   loop 2 invariant deref(e) == old(deref(e)) && deref(entity) == old(deref(entity))
 //@   loop 1 invariant forall k string :: {mhas(positionInfos, k)} mhas(positionInfos, k) ==> mget(positionInfos, k) != nil && mget(positionInfos, k).position != nil && mget(positionInfos, k).position.DataPair != nil && mget(positionInfos, k).position.DataPair.Data in ackedIDs && mget(positionInfos, k).taskID != ""
 //@   loop 2 invariant forall k string :: {mhas(positionInfos, k)} mhas(positionInfos, k) ==> mget(positionInfos, k) != nil && mget(positionInfos, k).position != nil && mget(positionInfos, k).position.DataPair != nil && mget(positionInfos, k).position.DataPair.Data in ackedIDs && mget(positionInfos, k).taskID != ""
+
+// ---- C10: which collections a task selects ---------------------------------------------------------------------------
+// covers(s, t): the specification s ("db.coll", either part may be "*") selects the full name t
+//@ spec covers(s string, t string) bool = (fullDB(s) == fullDB(t) || fullDB(s) == "*") && (fullColl(s) == fullColl(t) || fullColl(s) == "*")
+// the task's selection of one (database, collection): for a wildcard specification everything that no exclusion entry
+// covers, for named specifications exactly the listed names
+//@ func GetMatchCollectionInfo
+//@   props C10
+//@   requires taskInfo != nil && len(taskCollectionInfos) >= 1 && !contains(currentDatabaseName, ".") && !contains(currentCollectionName, ".")
+//@   requires forall i int :: {taskInfo.ExcludeCollections[i]} 0 <= i && i < len(taskInfo.ExcludeCollections) ==> oneDot(taskInfo.ExcludeCollections[i])
+//@   ensures [a-wildcard-task-does-not-select-what-an-exclusion-covers] old(taskCollectionInfos[0].Name) == "*" && (exists i int :: 0 <= i && i < len(taskInfo.ExcludeCollections) && covers(taskInfo.ExcludeCollections[i], currentDatabaseName + "." + currentCollectionName)) ==> result.Name == ""
+//@   ensures [a-wildcard-task-selects-everything-else] old(taskCollectionInfos[0].Name) == "*" && (forall i int :: {taskInfo.ExcludeCollections[i]} 0 <= i && i < len(taskInfo.ExcludeCollections) ==> !covers(taskInfo.ExcludeCollections[i], currentDatabaseName + "." + currentCollectionName)) ==> result == old(taskCollectionInfos[0])
+//@   ensures [a-named-task-selects-exactly-its-names] old(taskCollectionInfos[0].Name) != "*" ==> (result.Name == "" || result.Name == currentCollectionName) && ((forall i int :: {taskCollectionInfos[i]} 0 <= i && i < len(taskCollectionInfos) ==> old(taskCollectionInfos[i].Name) != currentCollectionName) ==> result.Name == "")
+//@   modifies nothing
+//@   panics never
+//@   rangeloop 1 invariant forall j int :: {taskInfo.ExcludeCollections[j]} 0 <= j && j <= rangeindex ==> !covers(taskInfo.ExcludeCollections[j], currentDatabaseName + "." + currentCollectionName)
+//@   loop 1 invariant preservedStruct(model.CollectionInfo) && (forall i int :: {taskCollectionInfos[i]} 0 <= i && i <= rangeindex ==> taskCollectionInfos[i].Name != currentCollectionName)
+
+//@ func IsValidCollectionInfo
+//@   props C10
+//@   ensures result == (collectionInfo.Name != "")
+//@   modifies nothing
+//@   panics never
+//@   inline
+
+// the DDL-message path asks MatchCollection, the data path asks the function returned by GetShouldReadFunc: both are
+// GetMatchCollectionInfo(...).Name != "" over the specification list chosen by GetCollectionInfos
+//@ func MatchCollection
+//@   props C10
+//@   requires taskInfo != nil && len(taskCollectionInfos) >= 1 && !contains(currentDatabaseName, ".") && !contains(currentCollectionName, ".")
+//@   requires forall i int :: {taskInfo.ExcludeCollections[i]} 0 <= i && i < len(taskInfo.ExcludeCollections) ==> oneDot(taskInfo.ExcludeCollections[i])
+//@   ensures [a-wildcard-task-does-not-select-what-an-exclusion-covers] old(taskCollectionInfos[0].Name) == "*" && (exists i int :: 0 <= i && i < len(taskInfo.ExcludeCollections) && covers(taskInfo.ExcludeCollections[i], currentDatabaseName + "." + currentCollectionName)) ==> !result
+//@   ensures [a-wildcard-task-selects-everything-else] old(taskCollectionInfos[0].Name) == "*" && (forall i int :: {taskInfo.ExcludeCollections[i]} 0 <= i && i < len(taskInfo.ExcludeCollections) ==> !covers(taskInfo.ExcludeCollections[i], currentDatabaseName + "." + currentCollectionName)) ==> result
+//@   ensures [a-named-task-selects-only-its-names] old(taskCollectionInfos[0].Name) != "*" && (forall i int :: {taskCollectionInfos[i]} 0 <= i && i < len(taskCollectionInfos) ==> old(taskCollectionInfos[i].Name) != currentCollectionName) ==> !result
+//@   modifies nothing
+//@   panics never
+
+// which specification list applies to a collection: the legacy single list only in the default database; with
+// per-database lists the list of that database, else the all-databases list unless the collection is excluded by name
+//@ func GetCollectionInfos
+//@   props C10
+//@   requires taskInfo != nil && !contains(dbName, ".") && !contains(collectionName, ".")
+//@   requires forall i int :: {taskInfo.ExcludeCollections[i]} 0 <= i && i < len(taskInfo.ExcludeCollections) ==> oneDot(taskInfo.ExcludeCollections[i])
+//@   ensures [the-single-list-applies-to-the-default-database-only] len(taskInfo.CollectionInfos) > 0 && dbName != "default" ==> result == nil
+//@   ensures [a-database-with-its-own-list-uses-it] len(taskInfo.CollectionInfos) == 0 && len(taskInfo.DBCollections) > 0 && (dbName in taskInfo.DBCollections) && taskInfo.DBCollections[dbName] != nil ==> result == taskInfo.DBCollections[dbName]
+//@   ensures [a-collection-excluded-by-name-is-not-selected-through-the-all-databases-list] len(taskInfo.DBCollections) > 0 && !((dbName in taskInfo.DBCollections) && taskInfo.DBCollections[dbName] != nil) && (exists i int :: 0 <= i && i < len(taskInfo.ExcludeCollections) && fullDB(taskInfo.ExcludeCollections[i]) == dbName && fullColl(taskInfo.ExcludeCollections[i]) == collectionName) ==> result == nil
+//@   modifies nothing
+//@   panics never
+//@   rangeloop 1 invariant forall j int :: {taskInfo.ExcludeCollections[j]} 0 <= j && j <= rangeindex ==> !(fullDB(taskInfo.ExcludeCollections[j]) == dbName && fullColl(taskInfo.ExcludeCollections[j]) == collectionName)
